@@ -15,6 +15,7 @@ import RuxModel.Model.Render
     compile <path>                       -> ok <first> <start> <spath> <regex> <names> | panic
     build <path> <k=v,...>               -> <path> <sorted query pairs>
     cnew <cap> | cset <k> <id> | cget <k> | cdel <k> | chas <k> | clen | ckeys
+    tourl <path> <none | m:k=v,… | p:k=v,… | o:k=v,… | s:hex>     -> path of Route.ToURL(args…) | panic
     comb <n1> <n2> | pclone <nil|k=v,…> | rcopy <name> <path> <methods> <nmiddleware> <nil|k=v,…>
     wopt <routes 0|1> <options of New> <options of a later WithOptions>   options: enc cache strict fb mna icpt:<hex> max:<n> cnum:<n>
     winit <script> | wh <code> | wr <bytes> | fl | wst                                   (responseWriter)
@@ -238,6 +239,28 @@ where stepP (c : Gen.CR Nat) : List String → Gen.CR Nat × String
     | none => (c, "bad-op")
   | ["cdel", k] => match unhex k with | some k => ((Gen.CR.Delete c k).1, boolS (Gen.CR.Delete c k).2) | none => (c, "bad-op")
   | ["chas", k] => match unhex k with | some k => ((Gen.CR.Has c k).1, boolS (Gen.CR.Has c k).2) | none => (c, "bad-op")
+  -- route.go Route.ToURL: `none` | `m:<k=v,…>` (one rux.M) | `p:<k=v,…>` (key/value arguments, in this order) | `o:<k=v,…>`
+  -- (the same with the last value dropped: an odd count) | `s:<hex>` (ONE string argument)
+  | ["tourl", p, spec] =>
+    match unhex p with
+    | none => (c, "bad-op")
+    | some p =>
+      let r : Gen.Route := { (default : Gen.Route) with path := p }
+      let mk (texts : List Bytes) : List (UArg Gen.BRU) := (List.range texts.length).map UArg.other
+      let run (args : List (UArg Gen.BRU)) (texts : List Bytes) : String :=
+        match Gen.Route.ToURL r args id (fun _ => []) Tie.findAllM Tie.replacerM
+            (fun a => match a with | .other i => texts.getD i [] | _ => []) (args.length + 2) with
+        | .ok (some u) => hexOf u.path
+        | .ok none => "fuel"
+        | .error _ => "panic"
+      let flat (l : List (Bytes × Bytes)) : List Bytes := l.flatMap fun kv => [kv.1, kv.2]
+      match spec.splitOn ":" with
+      | ["none"] => (c, run [] [])
+      | ["m", kv] => (match parsePairs kv with | some l => (c, run [UArg.m l] []) | none => (c, "bad-op"))
+      | ["p", kv] => (match parsePairs kv with | some l => (c, run (mk (flat l)) (flat l)) | none => (c, "bad-op"))
+      | ["o", kv] => (match parsePairs kv with | some l => (c, run (mk (flat l).dropLast) (flat l).dropLast) | none => (c, "bad-op"))
+      | ["s", v] => (match unhex v with | some v => (c, run (mk [v]) [v]) | none => (c, "bad-op"))
+      | _ => (c, "bad-op")
   -- middleware.go combineHandlers on marker chains [0..n1) and [n1..n1+n2)
   | ["comb", n1, n2] =>
     match n1.toNat?, n2.toNat? with
